@@ -444,6 +444,8 @@ def call_method(it, recv, name, args, kw):
             return t2.length
         if name == "read":
             return recv.content
+        if name == "close":
+            return None
         raise Unsupported("file." + name)
     raise Unsupported("method %s on %r" % (name, ops.type_name(it, recv)))
 
